@@ -65,16 +65,17 @@ def h_idiv(wp, n, args, callee):
     return r
 
 
-def build_idiv():
+def build_idiv(den='int'):
+    nm = f'idiv<long,{den}>'
     tu, flt = 'drivers/inst_c12.cpp', 'nano::idiv'
-    docs, fn = load(tu, flt, 'idiv', lambda d: astload.template_args(d)[:2] == ['long', 'int'])
+    docs, fn = load(tu, flt, 'idiv', lambda d: astload.template_args(d)[:2] == ['long', den])
     hdr = astload.REPO + '/include/nano/core/numeric.h'
-    wp = IdEnvWP('idiv<long,int>', bindings=nvwp.template_bindings(docs, fn))
+    wp = IdEnvWP(nm, bindings=nvwp.template_bindings(docs, fn))
     wp.bind_params(fn)
     wp.env['nominator'] = wp.fresh('Int', 'nominator', 'long')
-    wp.env['denominator'] = wp.fresh('Int', 'denominator', 'int')
+    wp.env['denominator'] = wp.fresh('Int', 'denominator', den)
     wp.assume(wp.in_range(wp.env['nominator'].t, 'long'))
-    wp.assume(wp.in_range(wp.env['denominator'].t, 'int'))
+    wp.assume(wp.in_range(wp.env['denominator'].t, den))
     for _, t in idiv_requires(wp.env['nominator'].t, wp.env['denominator'].t):
         wp.assume(t)
     nom, den = wp.env['nominator'].t, wp.env['denominator'].t
@@ -82,22 +83,21 @@ def build_idiv():
     wp.run(fn, hdr)
     if wp.returns == 0:
         raise astload.ExtractionError('idiv: no return path')
-    vcs = wp.vcs('idiv<long,int>', hdr, 'integer division with rounding')
-    vcs.append(reach_vc(wp, 'idiv<long,int>', hdr))
-    return vcs, fn_info('idiv<long,int>', 'idiv', hdr, fn)
+    vcs = wp.vcs(nm, hdr, 'integer division with rounding')
+    vcs.append(reach_vc(wp, nm, hdr))
+    return vcs, fn_info(nm, 'idiv', hdr, fn)
 
 
 # ------------------------------------------------------------------------------------------------- common set-up
 ING = f'(ite {inr("g", 0, "n")} 1 0)'         # g names an element of the input list
 
 
-def new_wp(name, input_name):
-    wp = IxWP(name)
+def new_wp(name, input_name, real=False):
+    wp = IxWP(name, real=real)
     wp.const('n', 'Int', 'long')
     wp.assume(f'(and (<= 0 n) (<= n {NMAX}))')
     wp.g = wp.const('g', 'Int').t       # unconstrained (n may be 0): claims are conditional on 0 <= g < n
     wp.d = wp.const('d', 'Int').t
-    wp.decls.append('(declare-fun wpos (Int) Bool)')    # weight of input element k is positive
     wp.input = input_name
     wp.input_vector(input_name, 'n')
     return wp
@@ -266,7 +266,7 @@ def h_sampler_call(replacement, weighted):
             w = ixmodel.look(args[1])
             if w.get('kind') == 'CXXConstructExpr' and len(w.get('inner', [])) == 1:
                 w = ixmodel.look(w['inner'][0])       # by-value copy of the weight map
-            ok = w.get('kind') == 'DeclRefExpr' and wp.env.get(w['referencedDecl']['name'], V('', '')).s == 'Weights'
+            ok = w.get('kind') == 'DeclRefExpr' and wp.env.get(w['referencedDecl']['name'], V('', '')).s == 'Rvec' and w['referencedDecl']['name'] == wp.weights
             wp.oblige('callee precondition: the weights handed over are the caller\'s weight vector', 'true' if ok else 'false', n)
         cnt = wp.ev(args[-2])
         wp.rng(args[-1])
@@ -285,7 +285,7 @@ def h_sampler_call(replacement, weighted):
 def build_sampler(name, cxx, select, input_name, weighted=False, replacement=True, forwards=False):
     fn = astload.find_definition(STU, 'nano::' + cxx, cxx, select)
     src = astload.resolve_tu(STU)
-    wp = new_wp(name, input_name)
+    wp = new_wp(name, input_name, real=weighted)     # weighted: doubles (weights, probabilities) are treated as reals
     wp.env['count'] = wp.const('count', 'Int', 'long')
     wp.env['rng'] = V('rng', 'Rng', ('true', '0'))      # the caller's generator, any state
     for _, t in sampler_requires('n', 'count', replacement):
@@ -293,11 +293,9 @@ def build_sampler(name, cxx, select, input_name, weighted=False, replacement=Tru
     if weighted:
         # requires: assert(samples.size() == weights.size()), assert(weights.min() >= 0) and a positive total weight
         # (precondition of std::discrete_distribution): some ghost position gw carries a positive weight
-        wp.weights = 'weights'
-        wp.env['weights'] = V('weights', 'Weights')
-        wp.env['weights.size'] = V('n', 'Int')
+        wp.input_weights('weights', 'n')
         wp.const('gw', 'Int')
-        wp.assume(f'(and {inr("gw", 0, "n")} (wpos gw))')
+        wp.assume(f'(and {inr("gw", 0, "n")} (> (wval gw) 0.0))')
 
     def post(wp, rv):
         if rv is None or rv.s != 'Arr':
@@ -327,12 +325,27 @@ S_CALLS = [(r'^operator\(\)\|.*\|nano::tensor_t<nano::tensor_carray_storage_t, l
            (r'^operator\(\)\|.*\|std::discrete_distribution<long>', 'nv_wdist_draw({&0}, {&1})')]
 
 
+def generator_lambda(select):
+    """index (source order) of the lambda that is handed to std::generate: the function may contain other lambdas (element
+    operations of std::transform ...), those are executed symbolically by back end B"""
+    d = astload.find_definition(STU, 'nano::sample_with_replacement', 'sample_with_replacement', select)
+    lams = astload.find_lambdas(d)
+    for c in astload.walk(d):
+        if c.get('kind') == 'CallExpr' and ixmodel.look(c['inner'][0]).get('referencedDecl', {}).get('name') == 'generate':
+            for a in c['inner'][1:]:
+                a = ixmodel.look(a)
+                for i, l in enumerate(lams):
+                    if l is a:
+                        return i
+    raise astload.ExtractionError('sample_with_replacement: no lambda is handed to std::generate')
+
+
 def lambda_targets():
     common = dict(types=S_TYPES, calls=S_CALLS, uf_float=False)
     gen = Fn('swr_gen', STU, 'sample_with_replacement', flt='nano::sample_with_replacement', select=nparams(3),
-             lambda_index=0, extra_params=['struct nv_t1i samples', 'struct nv_udist udist', 'struct nv_rng* rng'], **common)
+             lambda_index=generator_lambda(nparams(3)), extra_params=['struct nv_t1i samples', 'struct nv_udist udist', 'struct nv_rng* rng'], **common)
     wgen = Fn('swr_wgen', STU, 'sample_with_replacement', flt='nano::sample_with_replacement', select=nparams(4, True),
-              lambda_index=0, extra_params=['struct nv_t1i samples', 'struct nv_wdist wdist', 'struct nv_rng* rng'], **common)
+              lambda_index=generator_lambda(nparams(4, True)), extra_params=['struct nv_t1i samples', 'struct nv_wdist wdist', 'struct nv_rng* rng'], **common)
     return [Target('swr_gen', [gen], SH), Target('swr_wgen', [wgen], SH)]
 
 
@@ -429,7 +442,7 @@ def lemmas():
 
 def build(tier):
     vcs, fns = [], []
-    for r in (build_idiv(), build_split('kfold_split', KFOLD, False), build_split('random_split', RANDOM, True),
+    for r in (build_idiv('int'), build_idiv('long'), build_split('kfold_split', KFOLD, False), build_split('random_split', RANDOM, True),
               build_sampler('sample_without_replacement', 'sample_without_replacement', nparams(3), 'samples_', replacement=False),
               build_sampler('sample_with_replacement', 'sample_with_replacement', nparams(3), 'samples'),
               build_sampler('sample_with_replacement_weighted', 'sample_with_replacement', nparams(4, True), 'samples', weighted=True),
@@ -448,6 +461,9 @@ def build(tier):
             'both splitters: the only rng is make_rng(seed) with seed == parameter "splitter::seed" (=> equal seeds give equal splits, given deterministic std::shuffle); no other input is read (closed extraction: every call is mapped)',
             'every Eigen segment(begin,len) / dst=src / tensor slice / element access / indices_t(size) precondition that NDEBUG compiles out holds at every call site; no signed overflow in any index computation',
             'sample_without_replacement (0 <= count <= n): count distinct sorted members of the input; sample_with_replacement, uniform and weighted (n >= 1, count >= 0): count sorted members; weighted: the drawn index is used unchanged over the whole weight vector, so no zero-weight index is returned given the STL guarantee',
+            'weighted sampling: the std::discrete_distribution is built over exactly one probability per sample, aligned with the samples, and the probabilities are the given weights up to a zero-preserving element-wise map (weight 0 => probability 0, non-negative, a positive one exists) -- whatever std::vector<double> / std::transform pipeline produces them (element operations executed symbolically over the reals)',
+            'sampling without replacement: also when implemented with std::sample (contract: min(n, size) distinct elements in input order, nothing about sortedness) the result must be sorted for an arbitrary (unsorted) input list',
+            'idiv<long,long> (the instantiation a splitter would use for n / folds style divisions) proved like idiv<long,int>',
             'generator lambdas of sample_with_replacement (CBMC, real memory): the element access is in bounds and the result is an element of the input for every rng state',
             'random splitter again in CBMC/DFCC (cross-check on an independent abstract C model, specs/C12/rsplit.h, n <= 10^6): segment/copy discipline, exactly-once copy and fill, sortedness, per-fold reshuffle with the seeded rng, one pair per fold, loop termination -- everything of the back end B proof except the non-linear rounding clause',
             'gboost::sampler_t (CBMC): the constructor establishes the weight-vector invariant and seeds the rng from its seed argument; sample(): count = trunc(ratio*n) lies in [0,n], every mode calls the matching sampler inside its precondition and returns its result (subsample: distinct sorted members; bootstrap: sorted members; weighted: sorted members of positive weight with every weight written, in order, and weight(i) = loss / gradient norm of sample i; off: the whole list), all tensor index asserts hold, both loops terminate'],
@@ -460,6 +476,8 @@ def build(tier):
             'std::sort(first,last) makes [first,last) an ascending permutation of itself',
             'std::generate(first,last,gen) assigns gen() to every element; one symbolic call of the generator (arbitrary rng state) stands for every call',
             'std::uniform_int_distribution(lo,hi)(rng) returns a value of [lo,hi]; std::discrete_distribution over n weights draws an index of [0,n) with positive weight',
+            'std::sample(first,last,out,n,rng) on forward iterators writes min(n,last-first) distinct elements of the input range to out, in input order (stable selection sampling); std::transform applies its operation element-wise; std::vector<double>(size[,value]) / (first,last) / copies are the obvious containers',
+            'doubles in the weight pipeline are treated as reals; nano::epsilon0..3<double>() are positive constants; the caller\'s weights are >= 0 (library assert) -- instantiated at the ghost sample and at every drawn index',
             'Eigen: v.segment(b,l) is the view [b,b+l) of v; dst = src copies element-wise; tensor_t::vector()/slice()/size()/operator() are the obvious accessors (models/nv_tensor.h)',
             'indices_t(size) allocates `size` indeterminate slots; indices_t(view) copies the view; std::move / copy construction of a whole indices_t keeps its contents',
             'registered parameter domains: splitter::folds in [2,100], splitter::seed in [0,1024], splitter::random::train_per in [10,90] (C19 proves parameters stay in their domains)',
@@ -481,7 +499,7 @@ def replay(rp):
     import replaylib
     out = {'reproduced': False, 'runs': []}
     tgt = rp.get('target', '')
-    kind = {'kfold_split': 'kfold', 'random_split': 'random', 'idiv<long,int>': 'random', 'sample_without_replacement': 'without',
+    kind = {'kfold_split': 'kfold', 'random_split': 'random', 'idiv<long,int>': 'random', 'idiv<long,long>': 'kfold', 'sample_without_replacement': 'without',
             'sample_with_replacement': 'with', 'sample_with_replacement_weighted': 'weighted', 'swr_gen': 'with',
             'swr_wgen': 'weighted'}.get(tgt)
     if kind is None:
@@ -498,6 +516,9 @@ def replay(rp):
                 cands.append([kind, m['n'], m['count']])
     if kind in ('kfold', 'random'):
         cands += [[kind, n, f, s, p] for n in range(0, 41) for f in range(2, 13) for s, p in ((42, 80), (0, 10), (1024, 55))]
+    elif kind == 'weighted':
+        # weights are only meaningful up to scale: ordinary and tiny magnitudes
+        cands += [[kind, n, c, sc] for sc in ('1.0', '1e-15', '1e-300') for n in range(1, 13) for c in (0, 1, n, 2 * n, 200)]
     else:
         cands += [[kind, n, c] for n in range(1 if kind != 'without' else 0, 13) for c in range(0, (n if kind == 'without' else 2 * n) + 1)]
     seen = set()
